@@ -39,6 +39,31 @@ SELF_CONTEXTS = {
 }
 
 
+LIT = "%s { ..Default::default() }"
+# event payload expressions: (statements before the emit, payload expression, what the model is told)
+PAYLOAD_FORMS = {
+    "literal": lambda n, v: ([], LIT % n, ["lit", n]),
+    "literal_q1": lambda n, v: ([], LIT % ("events::" + n), ["lit", n]),
+    "literal_q2": lambda n, v: ([], LIT % ("crate::events::" + n), ["lit", n]),
+    "literal_self": lambda n, v: ([], LIT % ("self::" + n), ["lit", n]),
+    "literal_super": lambda n, v: ([], "&" + LIT % ("super::model::" + n), ["lit", n]),
+    "let_literal": lambda n, v: (["let %s = %s;" % (v, LIT % n)], v, ["lit", n]),
+    "let_literal_q": lambda n, v: (["let %s = %s;" % (v, LIT % ("crate::events::" + n))], "&" + v, ["lit", n]),
+    "new": lambda n, v: (["let %s = %s::new();" % (v, n)], v, ["new", [], n]),
+    # the tool does not read the type off these (class C07-8)
+    "new_q": lambda n, v: (["let %s = events::%s::new();" % (v, n)], v, ["new", ["events"], n]),
+    "variant_struct": lambda n, v: ([], "%s::Active { code: 1 }" % n, ["variant", n, "Active", True]),
+    "variant_path": lambda n, v: ([], "%s::Active" % n, ["variant", n, "Active", False]),
+}
+CLEAN_PAYLOAD_FORMS = ["literal", "literal_q1", "literal_q2", "literal_self", "literal_super", "let_literal", "let_literal_q", "new"]
+KF_PAYLOAD_FORMS = ["new_q", "variant_struct", "variant_path"]
+# type names whose first character is a caseless letter (Lo), a titlecase letter (Lt), an upper-case non-ASCII letter;
+# lower-case and underscore initials belong to class C07-6
+UNICODE_NAMES = ["\u6ce8\u6587", "\u72b6\u614bKind", "\u30c7\u30fc\u30bf", "\u05e9\u05dc\u05d5\u05dd", "\u0633\u0644\u0627\u0645",
+                 "\u0928\u092e\u0938\u094d\u0924\u0947", "\u00c9tatCivil", "\u03a9mega", "\u0414\u0430\u0442\u0430", "\u01c5ungla"]
+ODD_INITIAL_NAMES = ["\u00e9lan", "\u00dftrasse", "\u0434\u0430\u0442\u0430", "\u03c9mega", "_Hidden2", "lower_case"]
+
+
 def field_type(ctx, me, t):
     return SELF_CONTEXTS[ctx](me, t) if ctx in SELF_CONTEXTS else CONTEXTS[ctx](t)
 
@@ -214,9 +239,14 @@ def build(spec):
                         body.append("let %s = compute_value(%d);" % (v, n))
                         body.append({"emit": ename, "recv": "app", "payload": v if n % 2 else "&" + v,
                                      "c07": ["var", v]})
-                    elif ctx == "literal":
-                        body.append({"emit": ename, "recv": "app",
-                                     "payload": "%s { ..Default::default() }" % types[j]["name"], "c07": ["lit", types[j]["name"]]})
+                    elif ctx in PAYLOAD_FORMS:       # payload written as a literal / variant / constructor call
+                        nm = types[j]["name"]
+                        stmts, expr, pay = PAYLOAD_FORMS[ctx](nm, "pv%d" % n)
+                        body += stmts
+                        ev = {"emit": ename, "recv": "app", "payload": expr, "c07": pay}
+                        if n % 2:
+                            ev["to"] = "\"main\""              # emit_to(label, name, payload)
+                        body.append(ev)
                     else:
                         v = c.get("var") or "payload%d" % n
                         params.append({"name": v, "ty": CONTEXTS[ctx](tj)})
@@ -290,12 +320,15 @@ RUST_KEYWORDS = {"as", "box", "break", "const", "continue", "crate", "dyn", "els
 
 
 def ident(name):
-    """a lower-case identifier derived from a type name; never a Rust keyword (struct As gives as_)"""
+    """a lower-case ASCII identifier derived from a type name; never a Rust keyword (struct As gives as_); names with
+    non-ASCII letters give f_<code points> (field and command names stay ASCII: their case conversion is C04/C06 matter)"""
+    if not name.isascii():
+        return "f_" + "_".join("%x" % ord(ch) for ch in name[:3])
     return name + "_" if name in RUST_KEYWORDS else name
 
 
 def bad_name(nm, taken):
-    return (nm in taken or nm.endswith("Params") or nm.endswith("Schema") or len(nm) > 40 or not nm[0].isupper()
+    return (nm in taken or nm.endswith("Params") or nm.endswith("Schema") or len(nm) > 40 or (nm[0].isascii() and not nm[0].isupper())
             or nm in ("Option", "Result", "Vec", "HashMap", "BTreeMap", "HashSet", "BTreeSet", "String", "Hidden", "PlainData", "AppError",
                       "AuditRecord", "AuditMeta", "Sink", "AppHandle", "WebviewWindow"))
 
@@ -323,8 +356,10 @@ def overlap_names(rng, types, edges, n):
                 else:
                     parts = [x for x in SUFFIXES + BASES + PREFIXES if x in pn and x != pn and x[0].isupper()]
                     cand = rng.choice(parts) if parts else pn + "0"
-            elif r < 0.9:
+            elif r < 0.8:
                 cand = rng.choice(STD_LIKE + BASES + NAME_CLASH)
+            elif r < 0.9:
+                cand = rng.choice(UNICODE_NAMES)
             else:
                 cand = rng.choice(BASES) + rng.choice(SUFFIXES)
             if not bad_name(cand, taken):
@@ -421,8 +456,8 @@ def random_spec(rng, clean=True, acyclic=None, max_types=8, events=True):
     cmds = []
     field_names = None
     if naming == "overlap":                 # field and command names built from the type names
-        field_names = list(dict.fromkeys([ident(snake(t["name"])) for t in types[:n]] + [snake(t["name"]) + "_id" for t in types[:n]]))
-        pool = list(dict.fromkeys(["get_" + snake(t["name"]) for t in types[:n]] + [ident(snake(t["name"])) for t in types[:n]] + FN_NAMES))
+        field_names = list(dict.fromkeys([ident(snake(t["name"])) for t in types[:n]] + [ident(snake(t["name"])) + "_id" for t in types[:n]]))
+        pool = list(dict.fromkeys(["get_" + ident(snake(t["name"])) for t in types[:n]] + [ident(snake(t["name"])) for t in types[:n]] + FN_NAMES))
         names = rng.sample(pool, rng.randint(1, 4))
     else:
         names = rng.sample(FN_NAMES, rng.randint(1, 4))
@@ -441,7 +476,9 @@ def random_spec(rng, clean=True, acyclic=None, max_types=8, events=True):
         if events and rng.random() < 0.2:
             j = rng.randrange(n)
             if types[j]["kind"] == "struct":
-                roots.append(["event", j, rng.choice(["direct", "ref", "literal"])])
+                roots.append(["event", j, rng.choice(["direct", "ref"] + (CLEAN_PAYLOAD_FORMS if clean else CLEAN_PAYLOAD_FORMS + KF_PAYLOAD_FORMS[:1]))])
+            elif not clean and types[j]["kind"] == "enum":
+                roots.append(["event", j, rng.choice(KF_PAYLOAD_FORMS[1:])])
         cmds.append({"name": cn, "file": rng.randrange(nfiles), "roots": roots})
     helpers = []
     if rng.random() < 0.35:
@@ -697,4 +734,49 @@ def mapping_specs():
                 specs.append({"types": types, "edges": edges, "cmds": [{"name": "bill", "file": 0, "roots": roots}], "helpers": [],
                               "nfiles": 2, "alias": False, "shape": "mapping", "acyclic": True, "clean": True, "naming": "plain",
                               "type_mappings": {m: target, "ForeignDateTime": "string"}})
+    return specs
+
+
+def unicode_name_specs():
+    """type names whose first character is not an ASCII upper-case letter, at every harvesting site: parameter, return,
+    channel, event payload (variable, literal forms), field (direct and nested generics), each with a child"""
+    specs = []
+    sites = [("param", "direct"), ("param", "opt_vec"), ("ret", "result_ok"), ("channel", "vec"), ("event", "ref"),
+             ("event", "literal_q1"), ("field", "direct"), ("field", "map_tuple"), ("field", "vec_tuple")]
+    for k, nm in enumerate(UNICODE_NAMES + ODD_INITIAL_NAMES):
+        for s_i, (how, ctx) in enumerate(sites):
+            if (k + s_i) % 3 and nm in ODD_INITIAL_NAMES:
+                continue                                   # a third of the sites for the names of class C07-6
+            child = UNICODE_NAMES[(k + 1) % len(UNICODE_NAMES)] if s_i % 2 else "Leaf"
+            types = [{"name": nm, "kind": "struct", "derives": list(SD2), "file": k % 2},
+                     {"name": child, "kind": "struct", "derives": list(SD2), "file": 1},
+                     {"name": "Holder", "kind": "struct", "derives": list(SD2), "file": 0}]
+            if child == nm:
+                continue
+            edges = [[0, 1, CLEAN_FIELD[(k + s_i) % 10]]]
+            if how == "field":
+                edges.append([2, 0, ctx])
+                roots = [["param", 2, "direct"]]
+            else:
+                roots = [[how, 0, ctx], ["param", 2, "direct"]]
+            specs.append({"types": types, "edges": edges, "cmds": [{"name": "use_it", "file": (k + s_i) % 2, "roots": roots}], "helpers": [],
+                          "nfiles": 2, "alias": False, "shape": "unicode-" + how, "acyclic": True, "clean": nm in UNICODE_NAMES, "naming": "unicode"})
+    return specs
+
+
+def payload_form_specs():
+    """every payload expression form x emit / emit_to x command / helper, the payload type reachable no other way"""
+    specs = []
+    for k, form in enumerate(CLEAN_PAYLOAD_FORMS + KF_PAYLOAD_FORMS):
+        for where in ("cmd", "helper"):
+            enum = form.startswith("variant")
+            types = [{"name": "Progress", "kind": "enum" if enum else "struct", "derives": list(SD2), "file": 1},
+                     {"name": "Detail", "kind": "struct", "derives": list(SD2), "file": 0},
+                     {"name": "Meta", "kind": "struct", "derives": list(SD2), "file": 0}]
+            edges = [] if enum else [[0, 1, "vec"]]
+            fn = {"name": "notify_it", "file": k % 2, "roots": [["param", 2, "direct"], ["event", 0, form]] if where == "cmd" else [["event", 0, form]]}
+            other = {"name": "other_cmd", "file": 0, "roots": [["param", 2, "direct"]]}
+            cmds, helpers = ([fn], []) if where == "cmd" else ([other], [fn])
+            specs.append({"types": types, "edges": edges, "cmds": cmds, "helpers": helpers, "nfiles": 2, "alias": False,
+                          "shape": "payload-" + form, "acyclic": True, "clean": form in CLEAN_PAYLOAD_FORMS, "naming": "plain"})
     return specs
